@@ -36,8 +36,9 @@ RULE = ("MC: FidelityMC exhaustively over all valid abstract inputs and bounded 
 
 PCS_QUICK = ["empty", "one", "nul", "badutf8", "all256", "ws", "text", "b64ish", "maxm1", "max", "maxp1", "big"]
 PCS_ALL = PCS_QUICK + ["dmax", "dmaxp1"]
-HCS_ALL = ["none", "plain", "case", "repeat", "repcase", "values", "values2", "pvals", "sens", "senslow", "sensup", "sensmix",
+HCS_ALL = ["sigcol", "none", "plain", "case", "repeat", "repcase", "values", "values2", "pvals", "sens", "senslow", "sensup", "sensmix",
            "near", "copy", "collide", "copysens", "hmaxm1", "hmax", "hmaxp1"]
+LIST_CH = {"messages": "admin-messages", "dlq": "admin-dlq", "mcp": "mcp-messages", "mcpdlq": "mcp-dlq"}
 OVER_PCS = {"maxp1", "dmaxp1"}
 OVER_HCS = {"hmaxp1"}
 WIRE_ONLY_PCS = {"dmax", "dmaxp1"}
@@ -52,11 +53,14 @@ SHAPES_ALL = ("single", "after", "before", "middle")
 OKINDS_ALL = ("handler", "wire", "stream", "chunked", "publish")
 
 
-def params(pcs=PCS_ALL, hcs=HCS_ALL, srcs=("ingress", "publish"), bes=("memory", "sqlite"), modes=("pull", "push"),
+SRCS_ALL = ("ingress", "publish", "mpublish", "mcp")
+
+
+def params(pcs=PCS_ALL, hcs=HCS_ALL, srcs=SRCS_ALL, feats=(False, True), bes=("memory", "sqlite"), modes=("pull", "push"),
            vias=VIAS_ALL, shapes=SHAPES_ALL, star=False, free=False, maxdeq=2, maxatt=2, maxrs=1, minend=0, tour=False,
            maxother=1, okinds=OKINDS_ALL, osizes=("same", "longer", "shorter")):
     consts = {"Srcs": set(srcs), "PCs": set(pcs), "HCs": set(hcs), "Bes": set(bes), "ModesC": set(modes), "Vias": set(vias),
-              "Shapes": set(shapes), "OKinds": set(okinds), "OSizes": set(osizes)}
+              "Shapes": set(shapes), "OKinds": set(okinds), "OSizes": set(osizes), "Feats": set(feats)}
     plain = {"Star": star, "CentrePC": "text", "CentreHC": "plain", "FreeRoute": free, "MaxDeq": maxdeq, "MaxAtt": maxatt,
              "MaxRs": maxrs, "MinEnd": minend, "UseTour": tour, "MaxOther": maxother}
     return consts, plain
@@ -193,7 +197,7 @@ def signature(check, e, start):
     elif ev == "Deq":
         channel = e["a"]["ch"]
     elif ev == "List":
-        channel = "admin-" + e["a"]["which"]
+        channel = LIST_CH[e["a"]["which"]]
     elif ev == "Push":
         channel = "push"
     elif ev == "Other":
@@ -339,11 +343,12 @@ def tally(ctx, files):
                 if c["src"] == "ingress":
                     C["framing/%s/%s/%s" % (c["via"], c["pc"], "accepted" if ok else "refused")] += 1
                 elif ok:
-                    C["pubshape/%s/%s" % (c.get("pb"), c["be"])] += 1
+                    C["pubshape/%s/%s/%s" % (c["src"], c.get("pb"), c["be"])] += 1
                     if c.get("pb") in ("after", "middle") and c["hc"] == "none":
-                        C["pub_bare_after_headers/%s" % c["be"]] += 1
+                        C["pub_bare_after_headers/%s/%s" % (c["src"], c["be"])] += 1
                     if c.get("pb") in ("before", "middle") and c["hc"] != "none":
-                        C["pub_headers_before_bare/%s" % c["be"]] += 1
+                        C["pub_headers_before_bare/%s/%s" % (c["src"], c["be"])] += 1
+                C["src/%s/%s/%s/%s" % (c["src"], c["be"], c["pc"], "accepted" if ok else "refused")] += 1
                 if not ok:
                     C["refused/%s" % (c["pc"] if c["pc"] in OVER_PCS else c["hc"])] += 1
                     if not e["dump"]:
@@ -361,7 +366,7 @@ def tally(ctx, files):
                         C["forward_auth_called"] += 1
             elif ev in ("Deq", "Push", "List"):
                 if e["r"]["n"] >= 1:
-                    ch = e["a"]["ch"] if ev == "Deq" else ("push" if ev == "Push" else "admin-" + e["a"]["which"])
+                    ch = e["a"]["ch"] if ev == "Deq" else ("push" if ev == "Push" else LIST_CH[e["a"]["which"]])
                     C["obs/%s/%s/%s" % (c["pc"], ch, c["be"])] += 1
                     C["obs_hc/%s/%s" % (c["hc"], ch)] += 1
                     C["obs_src/%s/%s" % (c["src"], ch)] += 1
@@ -371,6 +376,22 @@ def tally(ctx, files):
                         C["obs_after/%s/%s/%s" % (after_op, ch, c["be"])] += 1
                     if after_other:
                         C["obs_after_other/%s/%s" % (ch, c["be"])] += 1
+                        C["obs_after_other_src/%s/%s" % (c["src"], ch)] += 1
+                        if c["fan"]:
+                            C["fan_obs_after_other/%s/%s" % (ch, c["be"])] += 1
+                        if c["sg"] and ev == "Push":
+                            C["signed_after_other/%s" % c["be"]] += 1
+                    if ev == "Push":
+                        if c["fan"] and e["r"]["f"]["n"] >= 1:
+                            C["fan/%s/%s" % (c["be"], c["pc"])] += 1
+                            if e["r"].get("mid"):
+                                C["fan_other_between_targets/%s" % c["be"]] += 1
+                        if c["sg"] and e["r"]["sig"]["have"]:
+                            C["signed/%s/%s" % (c["be"], c["pc"])] += 1
+                            if pushes >= 1:
+                                C["signed_redelivery/%s" % c["be"]] += 1
+                            if c["hc"] == "sigcol":
+                                C["signed_with_colliding_names/%s" % c["be"]] += 1
                     if ev in ("Deq", "Push"):
                         b = e["a"].get("b", "one")
                         if b == "pair" and e["r"]["k"]["n"] < 1:
@@ -399,8 +420,9 @@ def tally(ctx, files):
                 after_expire = True
                 C["lease_expired"] += 1
             elif ev == "Requeue":
-                if e["r"]["n"] == 1:
+                if e["r"]["n"] >= 1:
                     C["dlq_requeue"] += 1
+                    C["dlq_requeue_by/%s/%s" % (e["a"].get("by"), c["be"])] += 1
             elif ev == "LeaseOp":
                 C["leaseop/%s/%s/%s" % (e["a"]["kind"], e["a"]["ch"], e["a"].get("form", "single"))] += 1
             elif ev == "Other":
@@ -412,8 +434,12 @@ def tally(ctx, files):
                 if e["r"]["ok"]:
                     C["lease_extended/%s" % e["a"]["ch"]] += 1
             elif ev in ("Cancel", "Resume", "RequeueMsg"):
-                if e["r"]["n"] == 1:
+                if e["r"]["n"] >= 1:
                     C["operator/%s/%s/%s" % (ev, e["a"]["form"], c["be"])] += 1
+                    if c["src"] == "mpublish" and e["a"]["form"] == "filter":
+                        C["operator_endpoint_scoped/%s/%s" % (ev, c["be"])] += 1
+                    if c["fan"]:
+                        C["operator_fan/%s" % ev] += 1
                     if ev == "Cancel":
                         C["cancel_from/%s" % e["a"].get("from")] += 1
                     else:
@@ -443,7 +469,7 @@ def non_vacuity(ctx, C, pcs):
     require(C, ["obs/%s/inproc/%s" % (p, be) for p in ok_pcs for be in ("memory", "sqlite")], "in-process worker call")
     require(C, ["obs_hc/%s/%s" % (h, ch) for h in HCS_ALL if h not in OVER_HCS for ch in ("http", "grpc", "push", "admin-messages")],
             "header class x channel")
-    require(C, ["obs_src/%s/%s" % (s, ch) for s in ("ingress", "publish") for ch in ("http", "grpc", "push")], "source x channel")
+    require(C, ["obs_src/%s/%s" % (s, ch) for s in SRCS_ALL for ch in ("http", "grpc", "push")], "source x channel")
     require(C, ["batch/%s/%s/%s" % (b, ch, be) for be in ("memory", "sqlite") for (b, ch) in
                 (("one", "http"), ("one", "grpc"), ("alone", "http"), ("alone", "inproc"), ("pair", "http"), ("pair", "grpc"),
                  ("pair", "inproc"), ("alone", "push"), ("pair", "push"))], "store read path (batch 1 / batch alone / batch pair)")
@@ -456,9 +482,25 @@ def non_vacuity(ctx, C, pcs):
                if not (k == "ack" and ch == "grpc")], "lease operation forms")
     require(C, ["framing/%s/%s/accepted" % (v, p) for v in ("stream", "chunked", "wire", "handler") for p in ("empty", "maxm1", "max", "big")]
             + ["framing/%s/maxp1/refused" % v for v in ("stream", "chunked", "wire", "handler")], "body framing x size class")
-    require(C, ["pubshape/%s/%s" % (p, be) for p in SHAPES_ALL for be in ("memory", "sqlite")]
-            + ["pub_bare_after_headers/%s" % be for be in ("memory", "sqlite")]
-            + ["pub_headers_before_bare/%s" % be for be in ("memory", "sqlite")], "publish batch shapes")
+    PUBS = ("publish", "mpublish", "mcp")
+    BES = ("memory", "sqlite")
+    require(C, ["pubshape/%s/%s/%s" % (src, p, be) for src in PUBS for p in SHAPES_ALL for be in BES]
+            + ["pub_bare_after_headers/%s/%s" % (src, be) for src in PUBS for be in BES]
+            + ["pub_headers_before_bare/%s/%s" % (src, be) for src in PUBS for be in BES],
+            "publish batch shapes x publish path (global, endpoint-scoped, MCP)")
+    require(C, ["src/%s/%s/%s/accepted" % (src, be, p) for src in PUBS for be in BES for p in ("empty", "text", "all256", "max", "big")]
+            + ["src/%s/%s/maxp1/refused" % (src, be) for src in PUBS for be in BES], "publish path x backend x size class")
+    require(C, ["obs_after_other_src/%s/%s" % (src, ch) for src in ("mpublish", "mcp") for ch in ("http", "grpc", "push", "mcp-messages")]
+            + ["obs_after_other/%s/%s" % (ch, be) for ch in ("mcp-messages", "mcp-dlq", "admin-dlq") for be in BES]
+            + ["dlq_requeue_by/%s/%s" % (by, be) for by in ("admin", "mcp") for be in BES]
+            + ["operator_endpoint_scoped/%s/%s" % (o, be) for o in ("Cancel", "Resume", "RequeueMsg") for be in BES],
+            "endpoint-scoped and MCP paths after other traffic")
+    require(C, ["fan/%s/%s" % (be, p) for be in BES for p in ("text", "all256", "big")]
+            + ["fan_other_between_targets/%s" % be for be in BES] + ["fan_obs_after_other/push/%s" % be for be in BES]
+            + ["operator_fan/%s" % o for o in ("Cancel", "Resume", "RequeueMsg")], "fan-out to two deliver targets")
+    require(C, ["signed/%s/%s" % (be, p) for be in BES for p in ("text", "all256", "big")]
+            + ["signed_redelivery/%s" % be for be in BES] + ["signed_with_colliding_names/%s" % be for be in BES]
+            + ["signed_after_other/%s" % be for be in BES], "deliveries with sign hmac")
     require(C, ["other/%s/%s/%s" % (k, z, be) for k in OKINDS_ALL for z in ("same", "longer", "shorter") for be in ("memory", "sqlite")]
             + ["other_while/%s" % x for x in ("queued", "leased", "dead", "canceled", "delivered")]
             + ["obs_after_other/%s/%s" % (ch, be) for ch in ("http", "grpc", "inproc", "push", "admin-messages") for be in ("memory", "sqlite")]
@@ -499,36 +541,43 @@ def run(ctx):
     w = max(2, vf.NCPU // 2)
     jobs = []
     if quick:
-        jobs.append(("mc", lambda: run_mc(ctx, "all-inputs", pcs=PCS_ALL, maxdeq=2, maxatt=2, maxrs=1, workers=w)))
+        jobs.append(("mc", lambda: run_mc(ctx, "all-inputs", pcs=PCS_ALL, maxdeq=2, maxatt=2, maxrs=1, maxother=1,
+                                          okinds=["handler", "publish"], osizes=["longer"], workers=w)))
         jobs.append(("tour", lambda: gen(ctx, "tour", "tour", pcs=pcs, star=True, maxdeq=9, maxatt=7, maxrs=3, maxother=12, workers=4)))
         jobs.append(("edges", lambda: gen(ctx, "edges", "edges", pcs=["all256"], hcs=["sensmix"], srcs=["ingress"], vias=["handler"],
-                                          shapes=["single"], maxdeq=2, maxatt=2, maxrs=1, maxother=1, okinds=["handler"],
+                                          shapes=["single"], feats=[False], maxdeq=2, maxatt=2, maxrs=1, maxother=1, okinds=["handler"],
                                           osizes=["longer"], workers=4)))
-        jobs.append(("sim", lambda: gen(ctx, "sim", "sim", depth=16, simulate=150, pcs=pcs, free=True, maxdeq=8, maxatt=8, maxrs=3,
+        jobs.append(("sim", lambda: gen(ctx, "sim", "sim", depth=16, simulate=100, pcs=pcs, free=True, maxdeq=8, maxatt=8, maxrs=3,
                                         maxother=6, minend=3)))
     else:
         jobs.append(("mc", lambda: run_mc(ctx, "all-inputs-free", pcs=PCS_ALL, free=True, maxdeq=3, maxatt=3, maxrs=2, timeout=1500,
                                           workers=w)))
-        jobs.append(("tour", lambda: gen(ctx, "tour", "tour", pcs=pcs, star=False, free=False, maxdeq=9, maxatt=7, maxrs=3, maxother=12,
-                                         workers=4, timeout=1500)))
-        jobs.append(("tourfree", lambda: gen(ctx, "tourfree", "tour", pcs=["text", "all256", "empty", "max"],
-                                             hcs=["none", "plain", "sensmix", "repcase", "values2", "collide", "hmax"], star=False, free=True,
-                                             maxdeq=9, maxatt=7, maxrs=3, maxother=12, workers=4, timeout=1500)))
-        jobs.append(("edges", lambda: gen(ctx, "edges", "edges", pcs=["empty", "all256", "max"], hcs=["none", "plain", "sensmix", "collide"],
-                                          vias=["handler", "chunked"], shapes=["single", "middle"], maxdeq=2, maxatt=2, maxrs=1,
-                                          maxother=1, okinds=["handler"], osizes=["longer"], workers=4, timeout=1500)))
-        jobs.append(("sim", lambda: gen(ctx, "sim", "sim", depth=24, simulate=1500, pcs=pcs, free=True, maxdeq=12, maxatt=12, maxrs=4,
+        T = dict(maxdeq=9, maxatt=7, maxrs=3, maxother=12, workers=4, timeout=1500)
+        jobs.append(("tour", lambda: gen(ctx, "tour", "tour", pcs=pcs, srcs=["ingress", "publish"], feats=[False], star=False, free=False, **T)))
+        jobs.append(("tourpub", lambda: gen(ctx, "tourpub", "tour", pcs=["empty", "one", "all256", "text", "max", "maxp1", "big"],
+                                            srcs=["mpublish", "mcp"], feats=[False], star=False, free=False, **T)))
+        jobs.append(("tourfeat", lambda: gen(ctx, "tourfeat", "tour", pcs=["text", "all256", "empty", "big", "max"],
+                                             hcs=["plain", "sigcol", "none", "sensmix"], srcs=["ingress", "publish", "mcp"], modes=["push"],
+                                             star=False, free=False, **T)))
+        jobs.append(("tourfree", lambda: gen(ctx, "tourfree", "tour", pcs=["text", "all256", "max"], hcs=["none", "sensmix", "collide", "hmax"],
+                                             srcs=["ingress", "mpublish"], vias=["handler", "chunked"], feats=[False], star=False, free=True, **T)))
+        jobs.append(("edges", lambda: gen(ctx, "edges", "edges", pcs=["all256", "max"], hcs=["none", "sensmix"], srcs=["ingress", "mcp"],
+                                          vias=["handler", "chunked"], shapes=["single", "middle"], feats=[False], maxdeq=2, maxatt=2,
+                                          maxrs=1, maxother=1, okinds=["handler"], osizes=["longer"], workers=4, timeout=1500)))
+        jobs.append(("sim", lambda: gen(ctx, "sim", "sim", depth=24, simulate=1000, pcs=pcs, free=True, maxdeq=12, maxatt=12, maxrs=4,
                                         maxother=10, minend=4, timeout=1500)))
-    with cf.ThreadPoolExecutor(max_workers=len(jobs)) as ex:
-        futs = [(tag, ex.submit(fn)) for tag, fn in jobs]
-        outs = [(tag, f.result()) for tag, f in futs]
-    plans = [(tag, r) for tag, r in outs if tag != "mc"]
+    pool = cf.ThreadPoolExecutor(max_workers=len(jobs))
+    futs = [(tag, pool.submit(fn)) for tag, fn in jobs]
+    plans = [(tag, f.result()) for tag, f in futs if tag != "mc"]
+    mc_future = [f for tag, f in futs if tag == "mc"][0]     # joined after the journeys have been executed
     # ---- EXE (all plans), then TV over a few merged trace files (one JVM start per file)
     all_files, all_scheds = [], []
-    for tag, scheds in plans:
-        t0 = time.time()
-        sf, files = execute(ctx, scheds, tag)
-        ctx.cov["mc_runs"].append({"name": "exe-" + tag, "schedules": len(scheds), "secs": round(time.time() - t0, 1)})
+    t0 = time.time()
+    # the journeys sleep a lot (lease expiry, retry delays): overlap the plans, but keep the process count moderate
+    with cf.ThreadPoolExecutor(max_workers=len(plans) if quick else 2) as ex:
+        done = list(ex.map(lambda p: (p[0], p[1], execute(ctx, p[1], p[0])), plans))
+    ctx.cov["mc_runs"].append({"name": "exe", "plans": {tag: len(scheds) for tag, scheds, _ in done}, "secs": round(time.time() - t0, 1)})
+    for tag, scheds, (sf, files) in done:
         all_files += files
         all_scheds += scheds
         if len(ctx.cov["samples"]) < 2:
@@ -536,6 +585,8 @@ def run(ctx):
             if s:
                 s["generated_by"] = "TLC " + tag
                 ctx.sample(s)
+    mc_future.result()
+    pool.shutdown()
     t0 = time.time()
     merged = merge(ctx, all_files, 6 if quick else vf.NCPU)
     res = validate(ctx, merged, "all")
